@@ -166,6 +166,106 @@ func c07(c *Ctx) {
 	r.Check(!reach[lg.Exit], "C07.D2", name, "recovered panic always terminates the process", c.P.Pos(recEdge.Cond.Pos()),
 		"no path from recover()!=nil to a normal return", "a path from the non-nil edge of recover() returns normally: the panic is swallowed and this replica continues with diverged state")
 
+	// D2c / D4c: what else runs around the apply. applyProto is executed for the marked entry as well — there its handler
+	// returns before recover() — and the handler itself runs after a panic, before the entry is marked. Neither place may
+	// contain code that can panic on the entry's content. Closed lists:
+	//   applyProto proper: the apply call, metrics (prometheus vector methods), <x>.String(), logging of plain values;
+	//   handler before the marker is stored: recover, the marshal calls, ProtoMessage, append, StoreLogProto, logging and
+	//   termination calls with plain arguments.
+	{
+		plainArgs := func(call *ast.CallExpr) bool {
+			ok := true
+			for _, a := range call.Args {
+				ast.Inspect(a, func(n ast.Node) bool {
+					if inner, isCall := n.(*ast.CallExpr); isCall {
+						if astx.IsConversion(info, inner) || astx.Builtin(info, inner) != "" {
+							return true
+						}
+						fn := astx.Callee(info, inner)
+						if fn == nil || fn.Name() != "String" && fn.Name() != "Error" {
+							ok = false
+						}
+					}
+					return true
+				})
+			}
+			return ok
+		}
+		allowed := func(call *ast.CallExpr, inHandler bool) (bool, string) {
+			if astx.IsConversion(info, call) {
+				return true, ""
+			}
+			if b := astx.Builtin(info, call); b != "" {
+				return true, ""
+			}
+			fn := astx.Callee(info, call)
+			if fn == nil {
+				return false, astx.Str(call.Fun)
+			}
+			pkg := ""
+			if fn.Pkg() != nil {
+				pkg = fn.Pkg().Path()
+			}
+			name := fname(fn)
+			switch {
+			case pkg == "log" || strings.HasSuffix(pkg, "/glog") || pkg == "fmt":
+				if plainArgs(call) {
+					return true, ""
+				}
+				return false, astx.Str(call.Fun) + " with computed arguments"
+			case strings.Contains(pkg, "prometheus"):
+				return plainArgs(call), astx.Str(call.Fun)
+			case fn.Name() == "String" || fn.Name() == "Error":
+				return true, ""
+			case name == "applyRobustMessage" && !inHandler:
+				return true, ""
+			case inHandler && (name == "StoreLogProto" || name == "ProtoMessage" || fn.Name() == "Marshal" && (strings.HasSuffix(pkg, "/proto") || pkg == "encoding/json")):
+				return true, ""
+			}
+			if h := c.P.FuncOf(fn); h != nil && inHandler && load.ShortPkg(h.Pkg.PkgPath) == "main" {
+				// a helper of package main that does the marking: judged by D2's helper rule
+				for _, c2 := range astx.Calls(h.Body(), false) {
+					if f2 := astx.Callee(h.Info(), c2); f2 != nil && fname(f2) == "StoreLogProto" {
+						return true, ""
+					}
+				}
+			}
+			return false, astx.Str(call.Fun)
+		}
+		for _, call := range astx.Calls(ap.Body(), false) {
+			if call.Pos() >= deferLit.Pos() && call.End() <= deferLit.End() {
+				continue
+			}
+			if fl, isLit := ast.Unparen(call.Fun).(*ast.FuncLit); isLit && fl == deferLit {
+				continue
+			}
+			ok, what := allowed(call, false)
+			r.Check(ok, "C07.D4", ap.Name(), "nothing but the apply call, metrics and plain logging runs in applyProto", c.P.Pos(call.Pos()), "closed list of callees",
+				"applyProto calls "+what+": this also runs when the entry is replayed after it was marked as message of death, where the handler returns before recover() — if it can panic on the entry's content, every node dies at that entry on every restart")
+		}
+		// handler: calls on paths from the recover edge up to (and including) the store of the marker
+		storeV := -1
+		for _, v := range lg.Nodes() {
+			for _, call := range astx.Calls(v.Node, false) {
+				if fn := astx.Callee(info, call); fn != nil && fname(fn) == "StoreLogProto" {
+					storeV = v.ID
+				}
+			}
+		}
+		if storeV >= 0 {
+			before := lg.Reach(recEdge.To, func(x int) bool { return x == storeV }, nil)
+			for _, v := range lg.Nodes() {
+				if !(before[v.ID] || v.ID == recEdge.To) || v.ID == storeV {
+					continue
+				}
+				for _, call := range astx.Calls(v.Node, false) {
+					ok, what := allowed(call, true)
+					r.Check(ok, "C07.D2", name, "nothing that can panic runs between the recovered panic and the stored marker", c.P.Pos(call.Pos()), "closed list of callees",
+						"the handler calls "+what+" before the entry is marked: if that panics (decoding a raft-internal entry, formatting an unparseable line) the process dies inside the handler, nothing is marked, and every node dies at the same entry on every restart")
+				}
+			}
+		}
+	}
 	msgParam, lParam := paramOfType(ap, pathRobust, "Message"), paramOfType(ap, pathProto, "RaftLog")
 	typeField := c.P.Field("robust", "Message", "Type")
 	dataField := c.P.Field("proto", "RaftLog", "Data")
